@@ -100,7 +100,11 @@ class DeadlineWrapper(Wrapper):
     def start(self, deadline: 'Deadline') -> Iterator[None]:
         timeout = deadline.time_remaining()
         if not timeout:
-            raise asyncio.TimeoutError('Deadline exceeded')
+            error = asyncio.TimeoutError('Deadline exceeded')
+            # mark this wrapper as cancelled by its deadline, so that the
+            # caller can tell an expired deadline from an unrelated timeout
+            self.cancel(error)
+            raise error
 
         def callback() -> None:
             self.cancel(asyncio.TimeoutError('Deadline exceeded'))
